@@ -57,6 +57,7 @@ Proof.
     + eauto.
   - inversion H; subst; simpl; auto.
   - inversion H; subst; simpl; auto.
+  - inversion H; subst. destruct (existsb (String.eqb (s_cur s)) (w_names w n)); simpl; auto.
   - inversion H; subst; simpl; auto.
 Qed.
 
@@ -216,6 +217,8 @@ Proof.
     + right. apply IHp; auto.
   - simpl in H; inversion H; subst; simpl; auto.
   - simpl in H; inversion H; subst; simpl; auto.
+  - simpl in H; inversion H; subst. simpl.
+    destruct (existsb (String.eqb (s_cur s)) (w_names w n)); left; reflexivity.
   - simpl in H; inversion H; subst; simpl; auto.
 Qed.
 
@@ -249,6 +252,20 @@ Proof.
   destruct sg; simpl; auto.
   unfold alpha in Ho. simpl in Ho.
   destruct x; try discriminate; simpl; auto; destruct w0; try discriminate; auto.
+Qed.
+
+Theorem tree_guarded_sound_w : forall p, tree_guarded opt p = true ->
+  forall s, s_cache s = false -> allowed_tree (fst (run w p s)) (gone w (snd (run w p s))).
+Proof.
+  intros p Hg s Hc. unfold run.
+  destruct (exec w p XPy s) as [sg s'] eqn:E. apply an_sound in E.
+  unfold tree_guarded in Hg. apply andb_true_iff in Hg. destruct Hg as [H0 H1].
+  assert (Ho : ok_end_tree (abs_sig sg, alpha s') = true).
+  { destruct (entry_cases s Hc) as [Ha | Ha]; rewrite Ha in E;
+      [ eapply forallb_forall in H0; eauto | eapply forallb_forall in H1; eauto ]. }
+  destruct sg; simpl; auto.
+  unfold alpha in Ho. simpl in Ho.
+  destruct x; try discriminate; simpl; auto; destruct w0; try discriminate; simpl; auto.
 Qed.
 
 Theorem gone_guarded_sound_w : forall p, gone_guarded opt p = true ->
